@@ -602,4 +602,227 @@ Proof.
   rewrite thin_layer_box, body_layer_box. cbn [bind]. rewrite grid_layer_box. reflexivity.
 Qed.
 
+
+(* ------------------------------------------------------------------ the regions of THIN: the box, then the merged cells of the table moved down *)
+Local Notation boxr := (0, 0, S xr, S tp).
+Definition thb (y x : nat) : N := prep (chB y x).
+
+Lemma thb_table y x : 1 <= y -> y < S Hh -> x < W -> thb (tp + y) x = tc y x.
+Proof.
+  intros H1 H2 Hx. unfold thb. rewrite agree_rows by assumption. unfold chM, thc. change (LH hs) with Hh.
+  destruct (y <? Hh) eqn:E; [|reflexivity]. apply Nat.ltb_lt in E. now apply thin_char.
+Qed.
+Lemma thb_top x : x < W -> x <> 0 -> x <> xr -> thb tp x = tc 0 x.
+Proof.
+  intros Hx H0 Hne. facts. unfold thb. rewrite table_top, chM'_0x by lia. rewrite (thin_char d Hwf) by lia. symmetry. apply thc_in. change (LH hs) with Hh. lia.
+Qed.
+Lemma tc_00 : tc 0 0 = cTL.
+Proof. facts. rewrite thc_in by (change (LH hs) with Hh; lia). rewrite <- (thin_char d Hwf) by lia. pose proof (corner_char d Hwf) as Cc. rewrite chM_in in Cc by lia. now rewrite Cc. Qed.
+Lemma thb_00 : thb tp 0 = cL.
+Proof. facts. unfold thb. now rewrite table_top, chM'_00 by lia. Qed.
+Lemma tc_0xr : tc 0 xr = prep (mchar d 0 xr).
+Proof. facts. rewrite thc_in by (change (LH hs) with Hh; lia). symmetry. apply thin_char; [assumption|lia|assumption]. Qed.
+Lemma thb_0xr : thb tp xr = prep (arm_up (mchar d 0 xr)).
+Proof. facts. unfold thb. now rewrite table_top, chM'_0xr by lia. Qed.
+
+(* the two changed characters keep their part in every walk around a region *)
+Lemma thb_roles x : x < W ->
+  (okp corners_tr [cH; cB] (tc 0 x) -> okp corners_tr [cH; cB] (thb tp x)) /\
+  (mem (tc 0 x) corners_tr = true -> mem (thb tp x) corners_tr = true) /\
+  (mem (tc 0 x) corners_tl = true -> mem (thb tp x) corners_tl = true).
+Proof.
+  intro Hx. unfold okp. destruct (Nat.eq_dec x 0) as [->|H0].
+  - rewrite tc_00, thb_00. split; [intros [A B]; discriminate|split; [intro A; discriminate|intro; reflexivity]].
+  - destruct (Nat.eq_dec x xr) as [->|Hne].
+    + rewrite tc_0xr, thb_0xr. destruct under_edge as [E|[E|E]]; rewrite E;
+      (split; [intros [A B]; (discriminate || (split; reflexivity))|split; intro A; (discriminate || reflexivity)]).
+    + rewrite thb_top by assumption. auto.
+Qed.
+
+Lemma getd_THB y x : y < tp + S Hh -> x < W -> is_tl_corner THB y x = mem (thb y x) corners_tl.
+Proof. intros Hy Hx. unfold is_tl_corner, THB. now rewrite get_tab by assumption. Qed.
+
+Lemma corner_box_rows y x : y < tp -> x < W -> is_tl_corner THB y x = (y =? 0) && (x =? 0).
+Proof.
+  intros Hy Hx. facts. rewrite getd_THB by lia. unfold thb. rewrite chB_box by assumption. unfold boxch.
+  destruct (Nat.ltb_spec xr x) as [L1|G1]; [fa_eqb x 0; now rewrite andb_false_r|].
+  destruct (y =? 0) eqn:E0; [destruct (x =? 0); [reflexivity|]; destruct (x =? xr); reflexivity|].
+  cbn [andb]. destruct ((x =? 0) || (x =? xr)); [reflexivity|]. apply Nat.eqb_neq in E0.
+  destruct (Nat.lt_ge_cases (y - 1) (length name)) as [L|G].
+  - destruct (name_line (y - 1) L) as [_ P]. now rewrite (prep_plain _ (plain_nth _ (x - 1) P)).
+  - rewrite (nth_overflow name) by assumption. now destruct (x - 1).
+Qed.
+
+Lemma corner_table_rows y x : y < S Hh -> x < W -> is_tl_corner THB (tp + y) x = is_tl_corner (THM d) y x.
+Proof.
+  intros Hy Hx. rewrite getd_THB by lia. rewrite (corner_THM d y x) by (try assumption; lia).
+  destruct (Nat.eq_dec y 0) as [->|N0]; [|now rewrite thb_table by lia].
+  rewrite Nat.add_0_r. destruct (Nat.eq_dec x 0) as [->|H0]; [now rewrite thb_00, tc_00|].
+  destruct (Nat.eq_dec x xr) as [->|Hne]; [|now rewrite thb_top by assumption].
+  rewrite thb_0xr, tc_0xr. destruct under_edge as [E|[E|E]]; rewrite E; reflexivity.
+Qed.
+
+Lemma THB_length : length THB = tp + S Hh. Proof. unfold THB. apply tab_length. Qed.
+Lemma THB_row_length y : y < tp + S Hh -> length (nth y THB []) = W.
+Proof. intro Hy. unfold THB. rewrite tab_row_nth by assumption. now rewrite map_length, seq_length. Qed.
+
+Lemma corners_THB : find_top_left_corners THB = (0, 0) :: map (shp tp) (map (corner_of d) (firsts d)).
+Proof.
+  facts. unfold find_top_left_corners. rewrite THB_length, seq_app, flat_map_app. cbn [Nat.add].
+  assert (flat_map (fun y => map (fun x => (x, y)) (filter (is_tl_corner THB y) (seq 0 (length (nth y THB []))))) (seq 0 tp) = [(0, 0)]) as ->.
+  { rewrite Ptp. cbn [seq flat_map]. rewrite THB_row_length by lia.
+    assert (filter (is_tl_corner THB 0) (seq 0 W) = [0]) as ->.
+    { rewrite PW. cbn [seq filter]. rewrite corner_box_rows by lia. cbn [Nat.eqb andb]. f_equal. apply filter_none. intros x Hx. apply in_seq in Hx.
+      rewrite corner_box_rows by lia. now fa_eqb x 0. }
+    cbn [map app]. f_equal. apply flat_map_nil. intros y Hy. apply in_seq in Hy. rewrite THB_row_length by lia.
+    rewrite filter_none; [reflexivity|]. intros x Hx. apply in_seq in Hx. rewrite corner_box_rows by lia. now fa_eqb y 0. }
+  cbn [app]. f_equal. rewrite <- (corners_THM d Hwf). unfold find_top_left_corners. rewrite (THM_length d).
+  rewrite (seq_add_box tp (S Hh)), flat_map_concat_map, map_map, <- flat_map_concat_map. rewrite map_flat_map.
+  apply flat_map_ext_in'. intros y Hy. apply in_seq in Hy. rewrite THB_row_length, (THM_row_length d) by lia. rewrite map_map.
+  unfold shp. cbn [fst snd]. f_equal. apply filter_ext_in. intros x Hx. apply in_seq in Hx. apply corner_table_rows; lia.
+Qed.
+
+
+Lemma box_region : recognize_region THB (0, 0) = Ok boxr.
+Proof.
+  facts. unfold recognize_region, THB. fold thb.
+  assert (forall y x, y < tp -> thb y x = prep (boxch y x)) as Eb by (intros; unfold thb; now rewrite chB_box).
+  apply walk_tab; try lia.
+  - intros x H1 H2. rewrite Eb by lia. unfold boxch. fa_ltb xr x. cbn [Nat.eqb]. fa_eqb x 0. fa_eqb x xr. split; reflexivity.
+  - rewrite Eb by lia. unfold boxch. rewrite Nat.ltb_irrefl. cbn [Nat.eqb]. fa_eqb xr 0. now rewrite Nat.eqb_refl.
+  - intros y H1 H2. rewrite Eb by lia. unfold boxch. rewrite Nat.ltb_irrefl. fa_eqb y 0. rewrite Nat.eqb_refl, orb_true_r. split; reflexivity.
+  - rewrite thb_0xr. destruct under_edge as [E|[E|E]]; rewrite E; reflexivity.
+  - intros x H1 H2. rewrite thb_top by lia. rewrite thc_in by (change (LH hs) with Hh; lia). rewrite <- (thin_char d Hwf) by lia.
+    destruct (top_row x ltac:(lia) ltac:(lia)) as [E|[E|[(E & _)|(E & Ex)]]]; rewrite ?E; try (split; reflexivity). exfalso. lia.
+  - now rewrite thb_00.
+  - intros y H1 H2. rewrite Eb by lia. unfold boxch. fa_ltb xr 0. fa_eqb y 0. cbn [Nat.eqb orb]. split; reflexivity.
+  - rewrite Eb by lia. reflexivity.
+Qed.
+
+Lemma table_region i j r0 c0 r1 c1 : i < nr -> j < nc -> md_reg d i j = (r0, c0, r1, c1) ->
+  recognize_region THB (X ws c0, tp + X hs r0) = Ok (shr tp (mrect d (r0, c0, r1, c1))).
+Proof.
+  intros Hi Hj E. facts. pose proof (tile d Hwf i j r0 c0 r1 c1 Hi Hj E) as (T1 & T2 & T3 & T4 & T5 & T6 & T7).
+  pose proof (region_walk d Hwf i j r0 c0 r1 c1 Hi Hj E) as Q. unfold recognize_region, THM, TL in Q. change (LH hs) with Hh in Q. change (LW ws) with W in Q.
+  pose proof (Xv_lt d Hwf c0 ltac:(lia)) as Lx0. pose proof (Xh_lt' d Hwf r0 ltac:(lia)) as Ly0.
+  unfold mrect in Q. apply walk_tab_inv in Q; try lia.
+  destruct Q as (x1 & y1 & _ & _ & Ex & Ey & X1 & X2 & Y1 & Y2 & F1 & F2 & F3 & F4 & F5 & F6 & F7 & F8).
+  injection Ex as Ex. injection Ey as Ey. subst x1 y1.
+  unfold recognize_region, THB. fold thb. unfold shr, mrect.
+  replace (S (tp + X hs r1)) with (S (tp + X hs r1)) by reflexivity. replace (tp + S (X hs r1)) with (S (tp + X hs r1)) by lia.
+  assert (forall x, x < W -> (okp corners_tr [cH; cB] (tc (X hs r0) x) -> okp corners_tr [cH; cB] (thb (tp + X hs r0) x)) /\
+                             (mem (tc (X hs r0) x) corners_tr = true -> mem (thb (tp + X hs r0) x) corners_tr = true) /\
+                             (mem (tc (X hs r0) x) corners_tl = true -> mem (thb (tp + X hs r0) x) corners_tl = true)) as Top.
+  { intros x Hx. destruct (Nat.eq_dec (X hs r0) 0) as [E0|N0].
+    - rewrite E0, Nat.add_0_r. now apply thb_roles.
+    - rewrite thb_table by lia. auto. }
+  apply walk_tab; try lia.
+  - intros x H1 H2. apply Top; [lia|]. now apply F1.
+  - apply Top; [lia|assumption].
+  - intros y H1 H2. replace y with (tp + (y - tp)) by lia. rewrite thb_table by lia. apply F3; lia.
+  - rewrite thb_table by lia. assumption.
+  - intros x H1 H2. rewrite thb_table by lia. now apply F5.
+  - rewrite thb_table by lia. assumption.
+  - intros y H1 H2. replace y with (tp + (y - tp)) by lia. rewrite thb_table by lia. apply F7; lia.
+  - apply Top; [lia|assumption].
+Qed.
+
+Theorem regions_box : recognize_regions THB = Ok (boxr :: map (shr tp) (regions_m d)).
+Proof.
+  unfold recognize_regions. rewrite corners_THB. cbn [map_res]. rewrite box_region. cbn [bind].
+  assert (map_res (recognize_region THB) (map (shp tp) (map (corner_of d) (firsts d))) = Ok (map (shr tp) (regions_m d))) as ->; [|reflexivity].
+  unfold regions_m. rewrite !map_map. apply map_res_map. intros [i j] Hin.
+  destruct (firsts_in d (i, j) Hin) as (Hi & Hj & Hf). cbn [fst snd] in *. unfold corner_of, shp. cbn [fst snd].
+  unfold is_first in Hf. cbn [fst snd] in Hf. destruct (md_reg d i j) as [[[r0 c0] r1] c1] eqn:E.
+  apply andb_true_iff in Hf. destruct Hf as [F1 F2]. apply Nat.eqb_eq in F1, F2. subst r0 c0.
+  now apply (table_region i j i j r1 c1).
+Qed.
+
+
+(* ------------------------------------------------------------------ the walk of Canvas::plane: that of the table, moved down *)
+Lemma text_from_rect_shift h w k (f f' : nat -> nat -> N) l t rr bt :
+  (forall y x, 1 <= y -> y < h -> x < w -> f' (k + y) x = f y x) ->
+  text_from_rect (tab (k + h) w f') (l, k + t, rr, k + bt) = text_from_rect (tab h w f) (l, t, rr, bt).
+Proof.
+  intro A1. unfold text_from_rect. destruct bt as [|b']; [rewrite Nat.add_0_r|replace (k + S b') with (S (k + b')) by lia].
+  - destruct k as [|k']; [reflexivity|]. unfold slice. rewrite tab_length.
+    replace ((S (S k' + t) <=? k') && (k' <=? S k' + h)) with false by (symmetry; apply andb_false_iff; left; apply Nat.leb_gt; lia). reflexivity.
+  - unfold slice at 1 3. rewrite !tab_length.
+    replace ((S (k + t) <=? k + b') && (k + b' <=? k + h)) with ((S t <=? b') && (b' <=? h))
+      by (destruct (Nat.leb_spec (S t) b'), (Nat.leb_spec (S (k + t)) (k + b')), (Nat.leb_spec b' h), (Nat.leb_spec (k + b') (k + h)); lia || reflexivity).
+    destruct ((S t <=? b') && (b' <=? h)) eqn:Ec; [|reflexivity]. apply andb_true_iff in Ec. destruct Ec as [E1 E2]. apply Nat.leb_le in E1, E2.
+    unfold tab. rewrite !slice_map_seq by lia. replace (k + b' - S (k + t)) with (b' - S t) by lia.
+    assert (map (fun y => map (f' y) (seq 0 w)) (seq (S (k + t)) (b' - S t)) = map (fun y => map (f y) (seq 0 w)) (seq (S t) (b' - S t))) as ->; [|reflexivity].
+    replace (S (k + t)) with (k + S t) by lia. rewrite (seq_add_box (k + S t)), (seq_add_box (S t)), !map_map. apply map_ext_in. intros q Hq. apply in_seq in Hq.
+    apply map_ext_in. intros x Hx. apply in_seq in Hx. replace (k + S t + q) with (k + (S t + q)) by lia. apply A1; lia.
+Qed.
+
+Lemma GDB_get y x : y < S Hh -> x < W -> get GDB (tp + y) x = get (GM d) y x.
+Proof.
+  intros Hy Hx. unfold GDB, GM, TL. change (LH hs) with Hh. change (LW ws) with W. rewrite !get_tab by lia. fa_ltb (tp + y) tp. now replace (tp + y - tp) with y by lia.
+Qed.
+
+Theorem plane_box : plane_of boxed_canvas = Ok (bplane d b).
+Proof.
+  facts. unfold bplane.
+  assert (forall r, shift_rect b r = shr tp r) as Esr by (intros [[[l t] rr] bt]; reflexivity).
+  assert (forall c, shift_cell b c = shc tp c) as Esc by (intros [n r t| | | | | | |]; cbn [shift_cell shc]; try reflexivity; now rewrite Esr).
+  rewrite (map_ext _ _ (fun row => map_ext _ _ Esc row)).
+  apply (plane_of_shift (merged_canvas d) boxed_canvas tp (regions_m d) boxr).
+  - cbn [boxed_canvas merged_canvas cv_grid]. unfold GDB, GM, TL. now rewrite !tab_length.
+  - intro y. cbn [boxed_canvas merged_canvas cv_grid]. unfold GDB, GM, TL. change (LH hs) with Hh. change (LW ws) with W.
+    destruct (Nat.lt_ge_cases y (S Hh)) as [L|G].
+    + rewrite !tab_row_nth by lia. now rewrite !map_length.
+    + rewrite !nth_overflow by (rewrite tab_length; lia). reflexivity.
+  - intros y x Hy. cbn [boxed_canvas cv_grid]. unfold is_tl_corner, GDB.
+    destruct (Nat.lt_ge_cases x W) as [Lx|Gx]; [|now rewrite get_tab_none by lia].
+    rewrite get_tab by lia. tr_ltb y tp. unfold junkf, blB. tr_ltb y tp. destruct (S y <? tp); [reflexivity|]. now destruct (xr <? x).
+  - intros y x. cbn [boxed_canvas merged_canvas cv_grid]. unfold is_tl_corner.
+    destruct (Nat.lt_ge_cases y (S Hh)) as [Ly|Gy]; [destruct (Nat.lt_ge_cases x W) as [Lx|Gx]|].
+    + now rewrite GDB_get.
+    + unfold GDB, GM, TL. now rewrite !get_tab_none by (change (LW ws) with W; lia).
+    + unfold GDB, GM, TL. now rewrite !get_tab_none by (change (LH hs) with Hh; lia).
+  - reflexivity.
+  - cbn [boxed_canvas merged_canvas cv_horz]. now destruct (md_v2 d).
+  - cbn [boxed_canvas merged_canvas cv_vert]. now destruct (md_h2 d).
+  - intros x y r Hc Er. cbn [boxed_canvas merged_canvas cv_grid] in *.
+    assert (y < S Hh /\ x < W) as [Ly Lx].
+    { unfold is_tl_corner in Hc. destruct (Nat.lt_ge_cases y (S Hh)) as [Ly|Gy]; [destruct (Nat.lt_ge_cases x W) as [Lx|Gx]; [split; assumption|]|].
+      - unfold GM, TL in Hc. rewrite get_tab_none in Hc by (change (LW ws) with W; lia). discriminate.
+      - unfold GM, TL in Hc. rewrite get_tab_none in Hc by (change (LH hs) with Hh; lia). discriminate. }
+    destruct r as [[[l t] rr] bt]. unfold recognize_rectangle, GM, TL in Er. change (LH hs) with Hh in Er. change (LW ws) with W in Er.
+    apply walk_tab_inv in Er; try lia.
+    destruct Er as (x1 & y1 & -> & -> & -> & -> & X1 & X2 & Y1 & Y2 & F1 & F2 & F3 & F4 & F5 & F6 & F7 & F8).
+    split.
+    + unfold recognize_rectangle, GDB, shr. replace (tp + S y1) with (S (tp + y1)) by lia.
+      assert (forall y0 x0, y0 < S Hh -> (if tp + y0 <? tp then junkf (tp + y0) x0 else tcf (tp + y0 - tp) x0) = tcf y0 x0) as Eg
+        by (intros y0 x0 H0; fa_ltb (tp + y0) tp; now replace (tp + y0 - tp) with y0 by lia).
+      apply walk_tab; try lia.
+      * intros x0 H1 H2. rewrite Eg by lia. now apply F1.
+      * rewrite Eg by lia. assumption.
+      * intros y0 H1 H2. replace y0 with (tp + (y0 - tp)) by lia. rewrite Eg by lia. apply F3; lia.
+      * rewrite Eg by lia. assumption.
+      * intros x0 H1 H2. rewrite Eg by lia. now apply F5.
+      * rewrite Eg by lia. assumption.
+      * intros y0 H1 H2. replace y0 with (tp + (y0 - tp)) by lia. rewrite Eg by lia. apply F7; lia.
+      * rewrite Eg by lia. assumption.
+    + unfold contains, shr. replace (tp + S y1 <=? S tp) with false by (symmetry; apply Nat.leb_gt; lia). now rewrite andb_false_r.
+  - intros r Hr. cbn [boxed_canvas merged_canvas cv_text]. destruct r as [[[l t] rr] bt]. unfold shr, TB, TM.
+    apply (text_from_rect_shift (S Hh) W tp (chM d) chB). apply agree_rows.
+  - apply (regions_merged d Hwf).
+  - apply regions_box.
+  - apply (plane_merged d Hwf).
+Qed.
+
+(* ------------------------------------------------------------------ the headline: text -> name and plane *)
+Theorem cplane_box : canvas_cplane (drawb d b) = Ok (Some (bname b), bplane d b).
+Proof.
+  unfold canvas_cplane, scan. rewrite scan_layers_box. rewrite scan_box. cbn [bind]. rewrite plane_box. reflexivity.
+Qed.
+
 End Box.
+
+Theorem draw_roundtrip_box code d b : wf_mdraw d = true -> wf_ibox d b = true ->
+  canvas_cplane (drawb d b) = Ok (Some (bname b), bplane d b) /\
+  canvas_to_plane code (drawb d b) = Some (map (map (abs_cell code)) (bplane d b)).
+Proof. intros Hwf Hb. split; [now apply cplane_box|]. unfold canvas_to_plane. now rewrite cplane_box. Qed.
